@@ -135,3 +135,29 @@ def _matricise_roles(prog: Program, res: Result) -> None:
                     res.bad("PS", fi.short, desc, prog.loc(fi, n), f"decoded with shape[{sel}] but stored into columns {dst}")
     if n_ok == 0 and not conv:
         res.undecided("PS", fi.short, "write-back selectors of sptenmat.to_sptensor", prog.loc(fi))
+
+    # tensor.to_tenmat: the permutation applied to the data is (rdims, cdims) - row modes first - on every path
+    fi = prog.func("tensor.tensor.to_tenmat")
+    desc = "the dense matricisation lays the data out by the permutation (rdims, cdims): every definition of that permutation is built from them, rows first"
+    tr = [c for c in ast.walk(fi.node) if isinstance(c, ast.Call) and (dotted(c.func) or "").split(".")[-1] == "transpose" and len(c.args) >= 2]
+    if not tr or not isinstance(tr[0].args[1], ast.Name):
+        res.undecided("PS", fi.short, desc, prog.loc(fi), "transpose(self.data, <name>) not found")
+    else:
+        pname = tr[0].args[1].id
+        pdefs = [n for n in ast.walk(fi.node) if isinstance(n, ast.Assign) and len(n.targets) == 1 and isinstance(n.targets[0], ast.Name)
+                 and n.targets[0].id == pname]
+        problems = []
+        for d in pdefs:
+            names = [x.id for x in ast.walk(d.value) if isinstance(x, ast.Name) and x.id in ("rdims", "cdims")]
+            txt = ast.unparse(d.value)
+            if not names:
+                problems.append((d, f"`{pname} = {txt[:50]}` does not depend on rdims / cdims: the data is laid out in another mode order than the "
+                                    "matricisation records (visible for a one-sided split whose modes are not ascending)"))
+            elif names[0] == "cdims" and "rdims" in names:
+                problems.append((d, f"`{pname} = {txt[:50]}` lists the column modes first"))
+        if not pdefs:
+            res.undecided("PS", fi.short, desc, prog.loc(fi, tr[0]), f"no definition of `{pname}`")
+        elif problems:
+            res.bad("PS", fi.short, desc, prog.loc(fi, problems[0][0]), problems[0][1])
+        else:
+            res.ok("PS", fi.short, desc, prog.loc(fi, tr[0]), f"{len(pdefs)} definition(s) of `{pname}`")
